@@ -22,11 +22,13 @@ MANIFEST = {
             "re-serialises to itself (extended keys: outside the explicitly named class of the open finding extkey-version-marker-mismatch), accepted "
             "SEC text, public pairs, secret exponents, P:/H: seeds (= the BIP32 master of the seed bytes) and Electrum E: forms have in-range "
             "contents (1 <= se < n, coordinates < p, point on the curve) and the object's own text parses back to an equal object "
-            "(C18_<kind>_reserialises / C18_<kind>_refuses, under KeyLaws: points_for_x / contains_point / se*G facts as hypotheses), and a kernel-decided table theorem that on every network two checksummed kinds are separated by "
+            "(C18_<kind>_reserialises / C18_<kind>_refuses generic under KeyLaws; C18_<kind>_reserialises_real / _refuses_real hypothesis-free for the real codecs and the secp256k1 curve model of every network: KeyLaws realKeyEnv and CodecLaws realEnv are proved), and a kernel-decided table theorem that on every network two checksummed kinds are separated by "
             "prefix or payload length; model tied to the code by differential correspondence over all entry points x all networks.",
     "note": "The re-serialisation theorems take the curve object as a parameter with the laws KeyLaws (points_for_x returns the two reduced points of an x, a reduced "
             "curve point is one of them, se*G is reduced, p and n at most 2^256, HMAC-SHA512 yields 64 bytes), as CodecLaws does for the codecs; a toy instance "
-            "shows them satisfiable, the secp256k1 instance is C02/C10's. Electrum wallets re-serialise as plain keys (kind not compared). "
+            "shows them satisfiable, and real_key_laws (Proofs/RealKeyEnv.lean) proves them from the C02 theorems for realKeyEnv (Model/RealKeyEnv.lean: the C02 curve model "
+            "over the generator parameters all networks share, HMAC-SHA512 model), so the _real theorems carry no hypothesis. The driver evaluates realKeyEnv with one field "
+            "replaced: se*G by a Jacobian ladder for speed, cross-checked against realKeyEnv.mulG (op c18mulg) and the implementation on every run. Electrum wallets re-serialise as plain keys (kind not compared). "
             "Python's int()/str.upper()/str.split() on non-ASCII digits and letters are outside the model (exercised by the totality oracle only). "
             "The Groestlcoin family (grs, tgrs, grsrt; coins/groestlcoin/parse.py) runs and is modelled under the stand-in of translate/grs_stub.py "
             "for the absent groestlcoin_hash package: which checksum hash each code path of a network uses is a probed field of the table, and a "
